@@ -50,7 +50,7 @@ def hook_cases(draw, tier="quick"):
                 max_epochs=max_epochs, e0=e0,
                 perturbs=[draw(st.sampled_from([0.0, 0.7, 0.85, 1.2, 1.4])) for _ in range(k)],
                 shuffle=draw(st.booleans()), modedep=draw(st.sampled_from(["bn", "bn", "do"])),
-                bnstats=draw(st.sampled_from(["fresh", "trained"])))
+                bnstats=draw(st.sampled_from(["fresh", "trained"])), dec=draw(_c17().decode_types()))
 
 
 class _RecGen:
@@ -78,7 +78,9 @@ def execute_hooks(case, ctx):
     C._quiet()
     N, M = case["N"], case["M"]
     env = C._get_env(case["env"], case["num_loc"], case["dcls"])
-    policy = C._policy(case["env"], case["embed_dim"], case["pseed"], case["spread"], case["modedep"], case["bnstats"])
+    policy = C._policy(case["env"], case["embed_dim"], case["pseed"], case["spread"], case["modedep"], case["bnstats"],
+                       case.get("dec"))
+    dnote = C._dec_note(case.get("dec"))
     tag = f"hooks|{case['env']}"
     model = REINFORCE(env, policy, baseline="rollout",
                       baseline_kwargs={"n_epochs": case["n_epochs"], "bl_alpha": case["bl_alpha"]},
@@ -135,7 +137,8 @@ def execute_hooks(case, ctx):
                              f"{new_sets[0]['locs'].shape[0] if new_sets else 'no'} instances and {len(inner.bl_vals)} "
                              f"stored values, val_data_size is {M}"):
                 return
-            if C._compare_values(ctx, inner.bl_vals, oracle, env, new_sets[0], M, tag, "bl_vals_mismatch") is None:
+            if C._compare_values(ctx, inner.bl_vals, oracle, env, new_sets[0], M, tag, "bl_vals_mismatch",
+                                 note=dnote) is None:
                 return
             new_sets = new_sets[1:]
         elif C._same_params(inner.policy, oracle):
@@ -184,7 +187,7 @@ def execute_hooks(case, ctx):
         if C._verify_content(ctx, seq, ref, N, False, "hook_seq|" + tag, extra=extra) is None:
             return
         res = C._compare_values(ctx, extra, oracle, env, ref, N, tag, "rollout_value_mismatch",
-                                note=f" [epoch {e}, wrap number {wraps + 1}, baseline replaced {updates} times so far]")
+                                note=f" [epoch {e}, wrap number {wraps + 1}, baseline replaced {updates} times so far]" + dnote)
         if res is None:
             return
         decisive_total += res[0]
@@ -200,11 +203,13 @@ def execute_hooks(case, ctx):
     ctx.event(f"hook_wraps={min(wraps, 3)}{'+' if wraps >= 3 else ''}")
     ctx.event(f"e0={'0' if case['e0'] == 0 else ('past_warmup' if case['e0'] >= case['n_epochs'] else 'mid_warmup')}")
     ctx.event(f"val_batch_size={'none' if case['eval_bs'] is None else 'int'}")
+    C.dec_events(ctx, case.get("dec"))
     if wraps >= 2 and decisive_total >= 1 and N % case["train_bs"] != 0:
         ctx.nontriv()
     elif updates >= 1 and wraps >= 1 and decisive_total >= 1:
         ctx.nontriv()
-    ctx.sample({k: case[k] for k in ("env", "N", "M", "n_epochs", "bl_alpha", "max_epochs", "e0", "perturbs")})
+    ctx.sample({k: case[k] for k in ("env", "N", "M", "n_epochs", "bl_alpha", "max_epochs", "e0", "perturbs")}
+               | {"dec": case.get("dec")})
 
 
 # --------------------------------------------------------------------------- MDAM's replacement rollout (audit 39)
